@@ -53,6 +53,20 @@ class Model:
     def add_axiom(self, f):
         self._axioms.append(f)
 
+    def need_join_ext(self):
+        """Extensionality of sep.join over sequences (two sequences with equal elements join to the same string)."""
+        if getattr(self, "_join_ext", False):
+            return
+        self._join_ext = True
+        sep = z3.Const("jsep", z3.StringSort())
+        q1, q2 = z3.Consts("jq1 jq2", Ref)
+        i = z3.Int("jqi")
+        J = fn("str.join", z3.StringSort(), Ref, z3.StringSort())
+        self.add_axiom(z3.ForAll([sep, q1, q2], z3.Implies(
+            z3.And(seq_len(q1) == seq_len(q2),
+                   z3.ForAll([i], z3.Implies(z3.And(0 <= i, i < seq_len(q1)), seq_at(q1, i, STR) == seq_at(q2, i, STR)))),
+            J(sep, q1) == J(sep, q2)), patterns=[z3.MultiPattern(J(sep, q1), J(sep, q2))]))
+
     def need_box(self, ty):
         if repr(ty) not in self._boxed:
             self._boxed.add(repr(ty))
@@ -553,6 +567,21 @@ class Model:
         fields = d.get("_fields")
         if fields is None:
             raise Unsupported(f"constructor of {cname} (no _fields in class table)")
+        if d.get("_value_class") and not kwargs and len(args) == len(fields):
+            # frozen dataclass compared by value: the constructor is a function of its field values
+            tys = [parse_type(self.find_attr(cname, f_)[1]) for f_ in fields]
+            cargs = [ex.coerce(a, t_) for a, t_ in zip(args, tys)]
+            mk = fn("mk." + cname, *[t_.sort() for t_ in tys], Ref)
+            key = "mkax." + cname
+            if key not in self._boxed:
+                self._boxed.add(key)
+                xs = [z3.Const(f"mk{idx}", t_.sort()) for idx, t_ in enumerate(tys)]
+                facts = [mk(*xs) != NONE]
+                for f_, t_, x in zip(fields, tys, xs):
+                    decl, _ = self.find_attr(cname, f_)
+                    facts.append(fn(f"{decl}.{f_}", Ref, t_.sort())(mk(*xs)) == x)
+                self.add_axiom(z3.ForAll(xs, z3.And(facts), patterns=[mk(*xs)]))
+            return V(mk(*[c.term for c in cargs]), ObjT(cname))
         o = V(fresh("new." + cname, Ref), ObjT(cname))
         st.assume(o.term != NONE)
         bound = dict(zip(fields, args))
@@ -644,7 +673,34 @@ class Model:
                     return const("")
                 return V(z3.Concat(parts) if len(parts) > 1 else parts[0], STR)
             if isinstance(a.ty, SeqT) and a.ty.elem is STR:
+                self.need_join_ext()
                 return V(fn("str.join", z3.StringSort(), Ref, z3.StringSort())(t, a.term), STR)
+            if a.ty is PY and isinstance(a.py, tuple) and a.py and a.py[0] == "genexp":
+                # sep.join(f(x) for x in seq): the mapped sequence is characterised pointwise
+                _, gn, env = a.py
+                if len(gn.generators) == 1 and not gn.generators[0].ifs:
+                    comp = gn.generators[0]
+                    s2 = st.fork()
+                    s2.env = dict(env)
+                    it = ex.ev(comp.iter, s2)
+                    el = iter_elements(self, ex, it, s2)
+                    if el[0] == "symbolic":
+                        _, n, at = el
+                        j = fresh("mj", z3.IntSort())
+                        s3 = s2.fork()
+                        ex.assign(comp.target, at(j), s3)
+                        n0 = len(s3.pc)
+                        val = ex.to_str(ex.ev(gn.elt, s3), s3)
+                        q = V(fresh("mapseq", Ref), SeqT(STR))
+                        for f in s2.pc[len(st.pc):]:
+                            st.assume(f)
+                        for f in s3.pc[n0:]:
+                            st.assume(z3.ForAll([j], z3.Implies(z3.And(0 <= j, j < n), f)))
+                        st.assume(q.term != NONE)
+                        st.assume(seq_len(q.term) == n)
+                        st.assume(z3.ForAll([j], z3.Implies(z3.And(0 <= j, j < n), seq_at(q.term, j, STR) == val.term)))
+                        self.need_join_ext()
+                        return V(fn("str.join", z3.StringSort(), Ref, z3.StringSort())(t, q.term), STR)
         if name == "split" and len(args) == 1 and args[0].ty is STR:
             r = V(fn("str.split", z3.StringSort(), z3.StringSort(), Ref)(t, args[0].term), SeqT(STR))
             st.assume(seq_len(r.term) >= 1)
@@ -1159,12 +1215,48 @@ def _b_next(model, ex, args, kwargs, st, node):
     return res
 
 
+def map_seq(model, ex, gen, st):
+    """(f(x) for x in seq) over a symbolic sequence, without filters -> a fresh Seq characterised pointwise (or None)."""
+    _, gn, env = gen.py
+    if len(gn.generators) != 1 or gn.generators[0].ifs:
+        return None
+    comp = gn.generators[0]
+    s2 = st.fork()
+    s2.env = dict(env)
+    it = ex.ev(comp.iter, s2)
+    el = iter_elements(model, ex, it, s2)
+    if el[0] != "symbolic":
+        return None
+    _, n, at = el
+    j = fresh("mj", z3.IntSort())
+    s3 = s2.fork()
+    ex.assign(comp.target, at(j), s3)
+    n0 = len(s3.pc)
+    val = ex.ev(gn.elt, s3)
+    if val.ty is TUPLE or val.ty is PY:
+        return None
+    q = V(fresh("mapseq", Ref), SeqT(val.ty))
+    for f in s2.pc[len(st.pc):]:
+        st.assume(f)
+    for f in s3.pc[n0:]:
+        st.assume(z3.ForAll([j], z3.Implies(z3.And(0 <= j, j < n), f)))
+    st.assume(q.term != NONE)
+    st.assume(seq_len(q.term) == n)
+    st.assume(n >= 0)
+    st.assume(z3.ForAll([j], z3.Implies(z3.And(0 <= j, j < n), seq_at(q.term, j, val.ty) == val.term)))
+    return q
+
+
 def _b_tuple(model, ex, args, kwargs, st, node):
     if not args:
         return tup([])
     (a,) = args
     if a.ty is TUPLE or isinstance(a.ty, SeqT):
         return a
+    if a.ty is PY and isinstance(a.py, tuple) and a.py and a.py[0] == "genexp":
+        q = map_seq(model, ex, a, st)
+        if q is not None:
+            return q
     return model.materialise(ex, a, st, node, "tuple")
 
 
@@ -1389,6 +1481,11 @@ def _call(self, ex, fv, args, kwargs, st, node):
 
 def _native_symbolic_call(self, ex, f, args, kwargs, st, node):
     """A dependency function called with symbolic arguments: result unconstrained if the model lists it as pure."""
+    import re as _re
+    if isinstance(getattr(f, "__self__", None), _re.Pattern) and f.__name__ == "findall" and len(args) == 1 and args[0].ty is STR:
+        pat = f.__self__
+        if pat.groups <= 1:
+            return V(fn("re.findall:" + pat.pattern, z3.StringSort(), Ref)(args[0].term), SeqT(STR))
     name = getattr(f, "__module__", "") + "." + getattr(f, "__qualname__", getattr(f, "__name__", "?"))
     rty = self.opaque_natives.get(name) if hasattr(self, "opaque_natives") else None
     if rty is None:
